@@ -14,6 +14,8 @@ DeclError(cfgv, ls) == \/ HasBad(ls)
                        \/ (Has1(ls) /\ Has2(ls))
                        \/ (cfgv = "gfa1" /\ Has2(ls))
                        \/ (cfgv = "gfa2" /\ Has1(ls))
+\* with the dialect: rGFA is a dialect of GFA1
+DeclErrorD(cfgv, dialect, ls) == DeclError(cfgv, ls) \/ (dialect = "rgfa" /\ (cfgv = "gfa2" \/ Has2(ls)))
 DeclVersion(cfgv, ls) == IF cfgv # "none" THEN cfgv
                          ELSE IF Has1(ls) THEN "gfa1" ELSE "gfa2"
 =============================================================================
